@@ -7,7 +7,8 @@ request outstanding), the raw peer sends ONE message, and everything the
 endpoint does is observed: session callbacks, packets it emits (hook
 'pkt_out'), whether the connection ended and with which error, exceptions
 that reached the loop, CPU-time watchdog.  Then the application resumes
-reading (what was parked comes out) and the callbacks are observed again.
+reading (what was parked comes out) and the callbacks are observed again,
+and finally the peer closes the channel (it must end in order).
 
 Concrete values behind the abstract row (see ChanGate.tla):
   receive window W = 16 bytes, max packet size P = 8 bytes, the peer grants
@@ -24,7 +25,7 @@ from asyncssh.packet import Boolean, String, UInt32
 
 from harness import rawpeer
 from harness.sshpair import hostkey
-from harness.vloop import new_loop, close_loop, Deadlock, Spin
+from harness.vloop import new_loop, close_loop, Spin
 from harness.drivers.chan_raw import Watchdog, _alarm
 
 W = 16              # receive window of the channel under test
@@ -422,8 +423,10 @@ def _reach_known(w, row, rnd):
     locally_closed = ss in ('close_pending', 'closed') and \
         rs != 'close_pending'
     # an EOF can be parked on a server channel that was never started
+    # (not for REQ_START: there "reading" has to mean "was started")
     unstarted = locally_closed and rs == 'eof_pending' and \
-        role == 'server' and rnd.random() < 0.5
+        role == 'server' and row['msg'] != 'REQ_START' and \
+        rnd.random() < 0.5
     log, pc = w.open_channel(start=rd != 'starting' and not unstarted)
     ch = log.chan
     eof = (96, UInt32(pc))
@@ -659,7 +662,13 @@ def run_row(row, pred, seed=0):
         # ---- the reaction is the table's ----
         exp_cls = o['cls'] if o['cls'] in ('protocol_error', 'unimpl') \
             else 'no_error'
-        if cls != exp_cls:
+        if o['why'] == 'start_refused' and \
+                ['session_started', 0] in cbs:
+            V.append(('StartOnce', 'a second exec request on a started '
+                      'channel was handed to the application again: '
+                      f'session heard {cbs} (RFC 4254 6.5: only one of '
+                      'shell / exec / subsystem can succeed per channel)'))
+        elif cls != exp_cls:
             V.append(('Reaction', f'table: {o["cls"]} ({o["why"]}); the '
                       f'endpoint: {cls} ({exc!r})'))
         elif log is not None:
@@ -720,6 +729,34 @@ def run_row(row, pred, seed=0):
                     and not V:
                 V.append(('Reaction', f'after resume_reading() the session '
                           f'heard {later}, table: {pred["later"]}'))
+        # ---- epilogue: the peer closes the channel ----
+        epi = pred.get('epi') or {'cls': 'none'}
+        if epi['cls'] != 'none' and not w.ended() and cls == exp_cls:
+            m3 = len(log)
+            w.emitted.clear()
+            w.send((97, UInt32(pc)))
+            ecb = [list(x) for x in log[m3:]]
+            eout = [[a, b] for a, b in _names(w.emitted, [])]
+            obs['epi'] = {'cb': ecb, 'out': eout,
+                          'create': getattr(log, 'create', 'none')}
+            if w.ended() or w.project(pc) is not None or \
+                    ecb != [['connection_lost', 0]]:
+                V.append(('ClosesCleanly', f'the peer\'s CLOSE afterwards '
+                          f'did not end the channel in order: session heard '
+                          f'{ecb}, connection ended: {w.lost!r}, channel '
+                          f'still there: {w.project(pc) is not None}'))
+            elif eout != [list(x) for x in epi['out']]:
+                V.append(('ClosesCleanly', f'after the peer\'s CLOSE the '
+                          f'endpoint emitted {eout}, table: {epi["out"]}'))
+            elif epi['create'] != 'none' and \
+                    obs['epi']['create'] != epi['create']:
+                V.append(('Reaction', f'create_session() after the CLOSE: '
+                          f'{obs["epi"]["create"]}, table: {epi["create"]}'))
+            if w.loop.exceptions and not any(c == 'NoLoopException'
+                                             for c, _ in V):
+                V.append(('NoLoopException', 'an exception reached the '
+                          'event loop after the closing CLOSE: ' +
+                          repr(w.loop.exceptions[0].get('exception'))))
         # session language: nothing after connection_lost, no data after eof
         for lg in w.logs:
             names = [x[0] for x in lg]
@@ -732,6 +769,8 @@ def run_row(row, pred, seed=0):
                     for n in names[names.index('eof_received'):]):
                 V.append(('SessionOrder', f'data after eof_received: '
                           f'{names}'))
+        if V:
+            D.clear()       # one report per row
         return res
     except SetupError as exc:
         res['skipped'] = str(exc)
